@@ -135,7 +135,10 @@ PROPS["C20"] = {
             "and malformed text, Coin/Coins with empty and maximal denominations and truncated encodings, MsgSend with empty / 20-byte / odd-length "
             "addresses, power-index keys over the whole power range with all-0x00/0xFF/random addresses, unstaking time keys around second/day/leap "
             "boundaries from year 1 to 9999; every encoding produced by go-amino / the repo is compared byte for byte with the Lean model and "
-            "decoded back by the implementation; non-trivial = distinct (operation, input, outcome)",
+            "decoded back by the implementation; a fifth of the operations are implementation-side monitors for the wire types outside the model "
+            "(a StdTx around every message type, accounts, validators, signing infos, Dec: binary and JSON round trips; sign bytes equal across "
+            "encodings and different after changing any one signed field; six corruptions of each encoded transaction offered to the decoder: "
+            "no panic, accepted bytes re-encode stably); non-trivial = distinct (operation, input, outcome)",
     "assumptions": ["go-amino's crash-freedom on hostile bytes is tested (truncated and malformed inputs), not proved",
                     "the amino model covers varints, length-delimited fields, Int text, Coin, Coins, MsgSend; the other wire types (StdTx, the remaining "
                     "messages, accounts, validators, signing infos) are covered by implementation-side round-trip monitors and by the chain family "
